@@ -2,6 +2,13 @@
 #include "xh_common.hpp"
 #include <xercesc/util/TransService.hpp>
 #include <xercesc/util/XMLUniDefs.hpp>
+#include <xercesc/framework/XMLRecognizer.hpp>
+#include <xercesc/framework/MemBufInputSource.hpp>
+#include <xercesc/sax2/SAX2XMLReader.hpp>
+#include <xercesc/sax2/XMLReaderFactory.hpp>
+#include <xercesc/sax2/DefaultHandler.hpp>
+#include <xercesc/sax2/Attributes.hpp>
+#include <xercesc/sax/SAXParseException.hpp>
 #include <map>
 #include <memory>
 #include <cstring>
@@ -69,6 +76,57 @@ static std::string doTo(XMLTranscoder* t, const std::vector<uint32_t>& src, size
     }
 }
 
+// document level: parse the bytes, return the root's name, attribute values and text as UTF-16 hex, or the
+// first fatal error
+struct DocHandler : public DefaultHandler {
+    std::vector<XMLCh> text;
+    std::string fatal;
+    void put(const XMLCh* s, XMLSize_t n) { for (XMLSize_t i = 0; i < n; i++) text.push_back(s[i]); }
+    void startElement(const XMLCh* const, const XMLCh* const, const XMLCh* const qname, const Attributes& a) override {
+        put(qname, XMLString::stringLen(qname)); text.push_back(0x7C);
+        for (XMLSize_t i = 0; i < a.getLength(); i++) { put(a.getValue(i), XMLString::stringLen(a.getValue(i))); text.push_back(0x7C); }
+    }
+    void characters(const XMLCh* const c, const XMLSize_t n) override { put(c, n); }
+    void fatalError(const SAXParseException& e) override {
+        if (fatal.empty()) fatal = narrow(e.getMessage());
+        throw e;
+    }
+    bool sawError = false;
+    void error(const SAXParseException&) override { sawError = true; }
+    void warning(const SAXParseException&) override { sawError = true; }
+};
+
+static std::string doParse(const std::vector<uint32_t>& bytes) {
+    std::vector<XMLByte> in(bytes.size() + 1, 0);
+    for (size_t i = 0; i < bytes.size(); i++) in[i] = (XMLByte)bytes[i];
+    DocHandler h;
+    std::unique_ptr<SAX2XMLReader> p(XMLReaderFactory::createXMLReader());
+    p->setContentHandler(&h);
+    p->setErrorHandler(&h);
+    try {
+        MemBufInputSource src(in.data(), bytes.size(), "mem", false);
+        p->parse(src);
+    } catch (const SAXParseException&) {
+        return "fatal";
+    } catch (const XMLException& e) {
+        return "fatal";
+    } catch (...) {
+        return "exception";
+    }
+    if (!h.fatal.empty()) return "fatal";
+    if (h.sawError) return "reported-error " + showHex(h.text.data(), h.text.size(), 4);
+    return "ok " + showHex(h.text.data(), h.text.size(), 4);
+}
+
+static const char* encName(XMLRecognizer::Encodings e) {
+    switch (e) {
+    case XMLRecognizer::EBCDIC: return "EBCDIC"; case XMLRecognizer::UCS_4B: return "UCS_4B";
+    case XMLRecognizer::UCS_4L: return "UCS_4L"; case XMLRecognizer::UTF_8: return "UTF_8";
+    case XMLRecognizer::UTF_16B: return "UTF_16B"; case XMLRecognizer::UTF_16L: return "UTF_16L";
+    default: return "OTHER";
+    }
+}
+
 int main() {
     XMLPlatformUtils::Initialize();
     std::string line;
@@ -107,6 +165,13 @@ int main() {
             r = doFrom(trans("latin1"), parseHex(a[2], 2), atoi(a[1].c_str()), false);
             if (r.compare(0, 3, "ok ") == 0) { size_t p = r.find(' ', 3); r = "ok " + r.substr(p + 1); }
         }
+        else if (a.size() == 2 && a[0] == "probe") {
+            std::vector<uint32_t> b = parseHex(a[1], 2);
+            std::vector<XMLByte> in(b.size() + 1, 0);
+            for (size_t i = 0; i < b.size(); i++) in[i] = (XMLByte)b[i];
+            r = std::string("ok ") + encName(XMLRecognizer::basicEncodingProbe(in.data(), b.size()));
+        } else if (a.size() == 2 && a[0] == "parse")
+            r = doParse(parseHex(a[1], 2));
         std::cout << r << "\n";
     }
     return 0;
